@@ -1,4 +1,5 @@
 import Comrak.Props.C11
+import Comrak.Props.C11C12Canon
 open Comrak.C11
 #print axioms lineTable_covers
 #print axioms spNested_trans
@@ -14,3 +15,4 @@ open Comrak.C11
 #print axioms thematicEnd_exact
 #print axioms thematicEnd_old_exact_iff
 #print axioms thematicEnd_old_counterexample
+#print axioms canon_positions_in_range_nested_ordered
